@@ -4,6 +4,7 @@ import (
 	"context"
 	"errors"
 	"fmt"
+	"slices"
 	"sort"
 	"strings"
 	"time"
@@ -532,11 +533,9 @@ func c08Exec(plan any, sched *simrt.Tape) *sim.Outcome {
 	call := c08Payload(pl.Kind, pl.Size, rt.ids)
 
 	var start, retT time.Duration
-	var startStep, retStep int
 	var returned bool
 	var result error
 	var cancelled bool
-	var cancelT time.Duration
 
 	res := sim.Run(sched, 10*time.Minute, 60000, nil, func(ctx context.Context) {
 		var svc c08Submitter
@@ -573,15 +572,15 @@ func c08Exec(plan any, sched *simrt.Tape) *sim.Outcome {
 		cctx, cancel := context.WithCancel(ctx)
 		defer cancel()
 		simrt.Go("caller", func() {
-			simrt.Crit(func() { start, startStep = simrt.Now(), simrt.Step() })
+			simrt.Crit(func() { start = simrt.Now() })
 			err := call(cctx, svc)
-			simrt.Crit(func() { result, retT, retStep, returned = err, simrt.Now(), simrt.Step(), true })
+			simrt.Crit(func() { result, retT, returned = err, simrt.Now(), true })
 			simrt.Yield("c08/returned")
 		})
 		if pl.CancelAt > 0 {
 			simrt.Go("canceller", func() {
 				simrt.Sleep(ctx, pl.CancelAt, "c08/cancelwait")
-				simrt.Crit(func() { cancelled, cancelT = true, simrt.Now() })
+				simrt.Crit(func() { cancelled = true })
 				cancel()
 				simrt.Yield("c08/cancelled")
 			})
@@ -597,9 +596,6 @@ func c08Exec(plan any, sched *simrt.Tape) *sim.Outcome {
 		}
 		return out
 	}
-	_ = startStep
-	_ = retStep
-	_ = cancelT
 	h := &c08History{pl: pl, calls: rt.calls, start: start, retT: retT, returned: returned, result: result, cancelled: cancelled}
 	if pl.Immediate {
 		out.Violation = c08OracleImmediate(h, out)
@@ -760,8 +756,11 @@ func c08Oracle(h *c08History, out *sim.Outcome) *simrt.Violation {
 			}
 			sort.SliceStable(bases, func(i, j int) bool {
 				a, b := bases[i], bases[j]
-				if a.tolerated != b.tolerated {
-					return a.tolerated // part of its answers were tolerated rejections: nearest to an acceptance
+				// part of its answers carried a tolerated reason: nearest to an acceptance
+				am := len(per[a.node]) > 1 && (a.tolerated || slices.Contains(a.bad, "mixed"))
+				bm := len(per[b.node]) > 1 && (b.tolerated || slices.Contains(b.bad, "mixed"))
+				if am != bm {
+					return am
 				}
 				if len(a.bad) != len(b.bad) {
 					return len(a.bad) < len(b.bad)
